@@ -932,6 +932,13 @@ class Node:
         assert before is None
         if not self._children:
             raise ValueError("Need child nodes when `add_self=False`")
+        # Check the unique constraint for all nodes before adding the first
+        target_ids = {n._data_id for n in target.children}
+        for child in self._children:
+            if child._data_id in target_ids:
+                raise UniqueConstraintError(
+                    f"Node.data already exists in parent: {child}"
+                )
         res = None
         for child in self.children:
             n = target.add_child(child, before=None, deep=deep)
